@@ -179,13 +179,9 @@ Fixpoint canon_elems (ls : lenstyle) (e : Encoding.enc) (u : ty) (tag : option N
   end.
 
 Lemma canon_vec_unfold ls e u tag xs ctx :
-  canon ls e (TVec u) tag (VList xs) ctx =
-  match tag with
-  | None => None
-  | Some _ => if elem_kind e u then canon_elems ls e u tag xs else None
-  end.
+  canon ls e (TVec u) tag (VList xs) ctx = if vec_ok ls e u tag ctx then canon_elems ls e u tag xs else None.
 Proof.
-  cbn [canon]. destruct tag as [tg|]; [|reflexivity]. destruct (elem_kind e u); [|reflexivity].
+  cbn [canon]. destruct (vec_ok ls e u tag ctx); [|reflexivity].
   induction xs as [|x xs IH]; [reflexivity|]. cbn [canon_elems]. rewrite <- IH. reflexivity.
 Qed.
 
@@ -451,27 +447,39 @@ Proof. destruct u; cbn; try discriminate; intros H; split; try reflexivity; try 
 Lemma vec_sound u : sound_at u -> sound_at (TVec u).
 Proof.
   intros Hu ls e tag v ctx g H. destruct v as [| | | | | |xs|]; try discriminate.
-  rewrite canon_vec_unfold in H. destruct tag as [tg|]; [|discriminate].
-  destruct (elem_kind e u) eqn:Ek; [|discriminate]. destruct (elem_kind_flat e u Ek) as [Hnn Hkind].
-  destruct (canon_elems_split ls e u (Some tg) xs g H) as [gs [Hl [-> Hk]]].
+  rewrite canon_vec_unfold in H. destruct (vec_ok ls e u tag ctx) eqn:Ev; [|discriminate].
+  destruct (canon_elems_split ls e u tag xs g H) as [gs [Hl [-> Hk]]].
+  assert (Hnn : needs_next u = false).
+  { unfold vec_ok in Ev. destruct tag; [apply (elem_kind_flat e u Ev)|]. destruct u; try discriminate. reflexivity. }
   assert (Hel : forall k x gi, nth_error xs k = Some x -> nth_error gs k = Some gi ->
-                  gi <> [] /\ exact_strict ls e u (Some tg) x gi).
+                  gi <> [] /\ exact_strict ls e u tag x gi).
   { intros k x gi H1 H2. destruct (Hk k x gi H1 H2) as [Hne Hc]. split; [exact Hne|].
-    destruct (Hu ls e (Some tg) x None gi Hc) as [Hx [Hd _]]. split; [exact Hx|].
+    destruct (Hu ls e tag x None gi Hc) as [Hx [Hd _]]. split; [exact Hx|].
     intros fuel r Hf. apply Hd; [exact Hf|exact I|rewrite Hnn; discriminate|right; exact Hne]. }
-  assert (Hfail : forall fuel r, (depth u <= fuel)%nat -> next_ok tg r -> exists er, dec fuel ls e u (Some tg) r = Err er).
-  { intros fuel r Hf Hn. destruct (elem_fails_on_other_tag ls e u tg Hkind fuel r Hn) as [er [Hx|Hx]]; [exists er; exact Hx|].
-    pose proof (depth_pos u). lia. }
-  destruct (vec_tagged_next ls e u tg xs gs Hl Hel Hfail) as [Henc Hdec].
-  split; [exact Henc|]. split.
-  - intros fuel r Hf _ Hn _. apply Hdec; [exact Hf|]. apply Hn. reflexivity.
-  - intros tg' [= <-]. split.
-    + intros Hnil. destruct xs as [|x xs]; [split; reflexivity|]. destruct gs as [|g0 gs]; [discriminate|].
-      destruct (Hk 0%nat x g0 eq_refl eq_refl) as [Hne _]. cbn [concat] in Hnil. destruct g0; [congruence|discriminate].
-    + intros Hne r. destruct xs as [|x xs]; [destruct gs; [cbn in Hne; congruence|discriminate]|].
-      destruct gs as [|g0 gs]; [discriminate|]. destruct (Hk 0%nat x g0 eq_refl eq_refl) as [Hne0 Hc].
-      destruct (Hu ls e (Some tg) x None g0 Hc) as [_ [_ Ht]]. destruct (Ht tg eq_refl) as [_ Hst].
-      cbn [concat]. rewrite <- app_assoc. apply Hst. exact Hne0.
+  destruct tag as [tg|].
+  - (* tagged *)
+    cbn [vec_ok] in Ev. destruct (elem_kind_flat e u Ev) as [_ Hkind].
+    assert (Hfail : forall fuel r, (depth u <= fuel)%nat -> next_ok tg r -> exists er, dec fuel ls e u (Some tg) r = Err er).
+    { intros fuel r Hf Hn. destruct (elem_fails_on_other_tag ls e u tg Hkind fuel r Hn) as [er [Hx|Hx]]; [exists er; exact Hx|].
+      pose proof (depth_pos u). lia. }
+    destruct (vec_tagged_next ls e u tg xs gs Hl Hel Hfail) as [Henc Hdec].
+    split; [exact Henc|]. split.
+    + intros fuel r Hf _ Hn _. apply Hdec; [exact Hf|]. apply Hn. reflexivity.
+    + intros tg' [= <-]. split.
+      * intros Hnil. destruct xs as [|x xs]; [split; reflexivity|]. destruct gs as [|g0 gs]; [discriminate|].
+        destruct (Hk 0%nat x g0 eq_refl eq_refl) as [Hne _]. cbn [concat] in Hnil. destruct g0; [congruence|discriminate].
+      * intros Hne r. destruct xs as [|x xs]; [destruct gs; [cbn in Hne; congruence|discriminate]|].
+        destruct gs as [|g0 gs]; [discriminate|]. destruct (Hk 0%nat x g0 eq_refl eq_refl) as [Hne0 Hc].
+        destruct (Hu ls e (Some tg) x None g0 Hc) as [_ [_ Ht]]. destruct (Ht tg eq_refl) as [_ Hst].
+        cbn [concat]. rewrite <- app_assoc. apply Hst. exact Hne0.
+  - (* positional, last: the loop ends where the bytes end *)
+    cbn [vec_ok] in Ev. destruct u as [p| | |]; try discriminate. destruct ctx as [[|b0 r0]|]; try discriminate.
+    assert (Hfail : forall fuel, (depth (TPrim p) <= fuel)%nat -> exists er, dec fuel ls e (TPrim p) None [] = Err er).
+    { intros fuel Hf. destruct fuel as [|f]; [cbn in Hf; lia|]. rewrite dec_prim_unfold.
+      unfold is_err in Ev. destruct (framed_dec ls false None (prim_dec e p) []) as [| er | |]; try discriminate. exists er. reflexivity. }
+    destruct (vec_exact_gen ls e (TPrim p) None xs gs [] Hl Hel Hfail) as [Henc Hdec].
+    split; [exact Henc|]. split; [|intros tg E; discriminate].
+    intros fuel r Hf Hfit _ _. cbn [fits] in Hfit. subst r. apply Hdec. exact Hf.
 Qed.
 
 (* ---------- nested struct ---------- *)
